@@ -244,3 +244,96 @@ def c17_r5(ctx):
     hit = [c for c in norm.calls_in(sample) if norm.call_name(c) == "fromkeys" and isinstance(c.args[1], ast.Dict)]
     if not hit:
         raise AnalysisError("C17-R5 positive control failed")
+
+
+def _must_assigned_attrs(prog, cls, f, depth=0, seen=None):
+    """self attributes assigned on EVERY non-raising path of method f (following unconditional self.m() calls one level)."""
+    seen = seen or set()
+    if f.qualname in seen or depth > 2:
+        return frozenset()
+    seen.add(f.qualname)
+    g = cfgmod.cfg_of(f)
+
+    def transfer(node, state):
+        out = set(state)
+        a = node.ast
+        if node.kind == "stmt" and isinstance(a, (ast.Assign, ast.AugAssign)):
+            for t in (a.targets if isinstance(a, ast.Assign) else [a.target]):
+                for y in ast.walk(t):
+                    if isinstance(y, ast.Attribute) and isinstance(y.ctx, ast.Store) and norm.canon(y.value) == "self":
+                        out.add(y.attr)
+        for frag in cfgmod.node_exprs(node):
+            for c in norm.calls_in(frag):
+                if isinstance(c.func, ast.Attribute) and norm.canon(c.func.value) == "self":
+                    m = prog.lookup(cls, c.func.attr)
+                    if m is not None:
+                        out |= _must_assigned_attrs(prog, cls, m, depth + 1, seen)
+        return frozenset(out)
+    sin, sout = cfgmod.forward(g, frozenset(), transfer, include_exc=False)
+    return sin[g.exit.id] or frozenset()
+
+
+@rule("C17", "R6", "K6", "a pickled analysis component keeps its whole configuration",
+      min_instances=2,
+      clause="For every class in whoosh.analysis / whoosh.fields that defines __getstate__: every attribute its constructor "
+             "sets from its parameters is either part of the pickled state or is rebuilt UNCONDITIONALLY by __setstate__ "
+             "(directly or through a method it always calls); the schema -- analyzers included -- is pickled into the TOC, so "
+             "a dropped setting (e.g. the stemmer language) silently changes query-time analysis after the index is reopened.")
+def c17_r6(ctx):
+    prog = ctx.prog
+    n = 0
+    for cls in prog.classes.values():
+        if not (cls.module.name.startswith("whoosh.analysis") or cls.module.name == "whoosh.fields"):
+            continue
+        gs = cls.methods.get("__getstate__")
+        if gs is None:
+            continue
+        n += 1
+        ctx.saw(gs)
+        init = prog.lookup(cls, "__init__")
+        ss = prog.lookup(cls, "__setstate__")
+        configured = set()
+        if init is not None:
+            for st in ast.walk(init.node):
+                if isinstance(st, ast.Assign):
+                    for t in st.targets:
+                        if isinstance(t, ast.Attribute) and norm.canon(t.value) == "self":
+                            configured.add(t.attr)
+        # what __getstate__ keeps
+        keeps_all_but = None
+        kept = None
+        rets = [r.value for r in ast.walk(gs.node) if isinstance(r, ast.Return) and r.value is not None]
+        txt = norm.stmt_text(gs.node)
+        if len(rets) == 1:
+            v = norm.inline_defs(rets[0], gs.node)
+            if isinstance(v, ast.Dict) and all(isinstance(k, ast.Constant) for k in v.keys):
+                kept = set(k.value for k in v.keys)
+            elif "self.__dict__" in norm.canon(v) or "self.__dict__" in txt:
+                excl = set()
+                for x in ast.walk(gs.node):
+                    if isinstance(x, ast.Compare) and len(x.ops) == 1 and isinstance(x.ops[0], (ast.NotEq, ast.NotIn)):
+                        for c_ in ast.walk(x):
+                            if isinstance(c_, ast.Constant) and isinstance(c_.value, str):
+                                excl.add(c_.value)
+                    if isinstance(x, ast.Delete):
+                        for t in x.targets:
+                            if isinstance(t, ast.Subscript) and isinstance(t.slice, ast.Constant):
+                                excl.add(t.slice.value)
+                    if isinstance(x, ast.Call) and norm.call_name(x) == "pop" and x.args and isinstance(x.args[0], ast.Constant):
+                        excl.add(x.args[0].value)
+                keeps_all_but = excl
+        rebuilt = _must_assigned_attrs(prog, cls, ss) if ss is not None else frozenset()
+        if kept is not None:
+            missing = sorted(a for a in configured if a not in kept and a not in rebuilt)
+        elif keeps_all_but is not None:
+            missing = sorted(a for a in keeps_all_but if a in configured and a not in rebuilt) + \
+                sorted(a for a in keeps_all_but if a not in configured and a not in rebuilt and
+                       a in _must_assigned_attrs(prog, cls, init) if init is not None)
+        else:
+            missing = ["<__getstate__ form not recognised>"]
+        ctx.ob(cls, not missing, "every configured attribute is pickled or rebuilt unconditionally on unpickling",
+               detail="lost on pickling: %s (pickled: %s; rebuilt by __setstate__ on every path: %s)" % (
+                   missing, sorted(kept) if kept is not None else "all but %s" % sorted(keeps_all_but or []), sorted(rebuilt)) if missing else "",
+               loc=gs.loc)
+    if n < 2:
+        raise AnalysisError("only %d __getstate__ implementations found" % n)
